@@ -74,6 +74,13 @@ Proof.
   rewrite Hp. simpl. destruct (F s (fst p) (snd p)); simpl; [apply IH|reflexivity].
 Qed.
 
+Lemma skipn_nth_error {A} (l : list A) : forall k,
+  skipn k l = match nth_error l k with Some v => v :: skipn (S k) l | None => [] end.
+Proof.
+  induction l as [|x xs IH]; intros [|k]; simpl; try reflexivity.
+  rewrite IH. destruct (nth_error xs k); reflexivity.
+Qed.
+
 Lemma match_snoc {A B} (r : list A) x (a b : B) :
   match r ++ [x] with [] => a | _ :: _ => b end = b.
 Proof. destruct r; reflexivity. Qed.
@@ -215,6 +222,26 @@ Proof.
   transitivity (bind (do r <- gen_top_sort (S (size c)) c inv; foldM (fun s kv => F s (fst kv) (snd kv)) r s0) k).
   { symmetry. apply bind_assoc. }
   rewrite (foldM_gen_top_sort c inv F s0 Hnd). apply bind_assoc.
+Qed.
+
+(* the same for an arbitrary loop body over the pairs *)
+Lemma foldM_pairs' {St} (c : circuit) (f : St -> label * gate -> res St) ps :
+  Forall (valid_pair c) ps -> forall s,
+  foldM f ps s = foldM (fun s l => do g <- get_gate c l; f s (l, g)) (map fst ps) s.
+Proof.
+  induction 1 as [|[l g] ps Hp _ IH]; intros s; simpl; [reflexivity|].
+  unfold valid_pair in Hp. simpl in Hp. rewrite Hp. simpl.
+  destruct (f s (l, g)); simpl; [apply IH|reflexivity].
+Qed.
+
+Lemma foldM_gen_top_sort_k' {St B} c inv (f : St -> label * gate -> res St) s0 (k : St -> res B) :
+  NoDup (dkeys (gates c)) ->
+  (do r <- gen_top_sort (S (size c)) c inv; do s <- foldM f r s0; k s)
+  = (do ls <- top_sort inv c; do s <- foldM (fun s l => do g <- get_gate c l; f s (l, g)) ls s0; k s).
+Proof.
+  intros Hnd. rewrite <- (gen_top_sort_labels c inv Hnd).
+  destruct (gen_top_sort (S (size c)) c inv) as [r|e] eqn:E; cbn [bind]; [|reflexivity].
+  rewrite (foldM_pairs' c f r (gen_top_sort_valid _ _ _ _ E)). reflexivity.
 Qed.
 
 (* the representation invariant is needed: with a repeated key the comprehension collapses the entries *)
